@@ -476,7 +476,7 @@ def run_property(mod, tier, seed, replay=None):
         for path, suffix in violations:
             print('VIOLATION property=%s replay=%s%s' % (prop, path, suffix))
         log('[%s] tier=%s seed=%d cases=%d nontrivial=%d corr_bad=%d prop_bad=%d vac=%d wall=%.1fs'
-            % (prop, tier, seed, len(cases), len(nontriv), len(ev['bad_corr']), len(ev['bad_prop']),
+            % (prop, tier, seed, len(cases), len(nontriv), len(ev['bad_corr'] - ev['vac']), len(ev['bad_prop'] - ev['vac']),
                len(ev['vac']), time.time() - t0))
         return 1 if violations else 0
     finally:
